@@ -149,10 +149,44 @@ def hfirst_cases():
                 yield {'fam': 'hexp', 'text': topo + '.{' + frags + ',#B=' + b + '}', 'hfrag': hn, 'hweights': []}
 
 
+# hydrogens written inside a bracket atom of an aromatic ring (`[nH]`): "explicitly written hydrogens are kept" -- every atom
+# written `[nH]` must come back as a nitrogen with exactly one hydrogen (uncut, and with the two rings in different fragments)
+NH_WRITTEN = [
+    ('{[#A]}.{#A=[nH]1cccc1}', 1), ('{[#A]}.{#A=Cc1ccc[nH]1}', 1), ('{[#A]}.{#A=c1c[nH]cn1}', 1),
+    ('{[#A]}.{#A=[nH]1cccc1c1ccc[nH]1}', 2), ('{[#A][#B]}.{#A=[$]c1ccc[nH]1,#B=[$]c1ccc[nH]1}', 2),
+    ('{[#A][#A]}.{#A=[$]c1ccc[nH]1}', 2), ('{[#M][#A][#B][#M]}.{#A=[$]c1cc([$])c[nH]1,#B=[$]c1cc([$])c[nH]1,#M=[$]C}', 2),
+    ('{[#A][#B]}.{#A=CC[$],#B=[$]c1ccc[nH]1}', 1), ('{[#A]}.{#A=O=c1[nH]cccc1C}', 1),
+    ('{[#A][#B][#A]}.{#A=[$]c1ccc[nH]1,#B=[$]c1ccc([$])[nH]1}', 3),
+]
+
+
+# sampler half of the statement ("returned by the resolver or the sampler"): all-atom samplers built WITHOUT a mass table
+# (the masses are then computed from the fragments themselves), a few growth histories each
+SAMPLER_SETS = [
+    ('{#PEO=[>]COC[<]}', {'polymer_reactivities': {'>': 0.5, '<': 0.5}}),
+    ('{#PEO=[$]COC[$]}', {'polymer_reactivities': {'$': 1.0}}),
+    ('{#PE=[$]CC[$][$]}', {'polymer_reactivities': {'$': 1.0}}),
+    ('{#PMA=[>]CC[<]C(=O)OC,#PS=[>]CC[<]c1ccccc1}', {'polymer_reactivities': {'>': 0.5, '<': 0.5}}),
+    ('{#A=[>]CC[<],#T=[$]O,#B=[>]C[$]C[<]}', {'polymer_reactivities': {'>': 0.4, '<': 0.4, '$': 0.2}, 'terminal_bonds': ['$']}),
+    ('{#PI=[>]CC=C(C)C[<]}', {'polymer_reactivities': {'>': 0.5, '<': 0.5}}),
+    ('{#V=[>]=CC=[<]}', {'polymer_reactivities': {'>2': 0.5, '<2': 0.5}}),
+]
+
+
+def sampler_cases(quick):
+    for text, kw in SAMPLER_SETS:
+        for s in range(1, 4 if quick else 12):
+            for target in ((120, 260) if quick else (60, 120, 260, 500)):
+                yield {'fam': 'sampler', 'text': text, 'kw': kw, 'seed': s, 'target': target}
+
+
 def cases(tier, seed):
     rng = random.Random(seed * 499 + 1)
     quick = tier == 'quick'
     yield from hfirst_cases()
+    yield from sampler_cases(quick)
+    for text, n_nh in NH_WRITTEN:
+        yield {'fam': 'hexp', 'text': text, 'hfrag': [], 'hweights': [], 'n_nh': n_nh}
     # ---- explicit hydrogens first (small and the most specific)
     for frags, hnames, hw in HEXP:
         for topo in HEXP_TOPOLOGIES:
@@ -210,6 +244,16 @@ def init_worker():
 
 def check_case(case):
     from cgsmiles.resolve import MoleculeResolver
+    if case['fam'] == 'sampler':
+        from cgsmiles.sample import MoleculeSampler
+        text = 'sampler %s %r seed=%d target=%s' % (case['text'], case['kw'], case['seed'], case['target'])
+        r = base.quiet(lambda: MoleculeSampler.from_fragment_string(case['text'], all_atom=True, seed=case['seed'], **case['kw']).sample(case['target']))
+        if r[0] != 'ok':
+            return Outcome(text, False, [], skipped=True, note='growth history dead-ends (%s)' % r[1])
+        fails = []
+        for kind, node, detail in check_valence(r[1])[:4]:
+            fails.append(Failure('MoleculeSampler.sample() -> molecule', kind, '%s -> %s' % (text, detail), 'sample/all-atom/%s' % kind, text=text))
+        return Outcome(text, True, fails)
     if case['fam'] == 'cut':
         built = g2.build(case)
         text = g2.describe(built)
@@ -245,6 +289,13 @@ def check_case(case):
     inherit = ('fragid', 'fragname', 'weight') if not hw else ('fragid', 'fragname')
     for kind, node, detail in check_valence(fine, explicit_h=explicit, inherit=inherit)[:4]:
         fail(kind, detail)
+    if case.get('n_nh') is not None:
+        got = sum(1 for n, d in fine.nodes(data=True) if d.get('element') == 'N' and
+                  sum(1 for m in fine[n] if fine.nodes[m].get('element') == 'H') == 1)
+        if got != case['n_nh']:
+            fail('written-hydrogen-lost', '%d atoms are written [nH] but %d nitrogens carry exactly one hydrogen: %s' % (
+                case['n_nh'], got, sorted((n, sum(1 for m in fine[n] if fine.nodes[m].get('element') == 'H'))
+                                          for n, d in fine.nodes(data=True) if d.get('element') == 'N')))
     if hw:
         # atoms (element, weight) listed in hw carry explicitly weighted hydrogens; all other hydrogens inherit the weight
         for n, d in fine.nodes(data=True):
